@@ -104,22 +104,23 @@ def _is_small_int(p):
 
 def _apply(p, obj, is_ra):
     f = p["f"]
+    ax = -1 if p["vseed"] % 3 else 1          # "along the rows" is axis -1 or, equivalently, axis 1
     with np.errstate(all="ignore"), warnings.catch_warnings():
         warnings.simplefilter("ignore")
         if f == "cumsum":
-            return np.cumsum(obj, axis=-1) if is_ra else np.cumsum(obj)
+            return np.cumsum(obj, axis=ax) if is_ra else np.cumsum(obj)
         if f in ("add", "subtract", "bitwise_xor"):
             uf = getattr(np, f)
-            return uf.accumulate(obj, axis=-1) if is_ra else uf.accumulate(obj)
+            return uf.accumulate(obj, axis=ax) if is_ra else uf.accumulate(obj)
         if f == "sort":
-            return obj.sort(axis=-1) if is_ra else np.sort(obj)
+            return obj.sort(axis=ax) if is_ra else np.sort(obj)
         if f == "unique":
-            return np.unique(obj, axis=-1) if is_ra else np.unique(obj, equal_nan=False)
+            return np.unique(obj, axis=ax) if is_ra else np.unique(obj, equal_nan=False)
         if f == "unique_counts":
-            return np.unique(obj, axis=-1, return_counts=True) if is_ra else np.unique(obj, return_counts=True, equal_nan=False)
+            return np.unique(obj, axis=ax, return_counts=True) if is_ra else np.unique(obj, return_counts=True, equal_nan=False)
         if f == "diff":
             n = p["n"] if (not is_ra or p.get("nform", "int") == "int") else np.dtype(p["nform"]).type(p["n"])
-            return np.diff(obj, n=n, axis=-1) if is_ra else np.diff(obj, n=p["n"])
+            return np.diff(obj, n=n, axis=ax) if is_ra else np.diff(obj, n=p["n"])
 
 
 def run_impl(p):
